@@ -113,3 +113,8 @@ Theorem version_guard_matches_source : forall ots version_set,
   GenSwitches.version_listener_fires (fun t => has_token t ots) version_set true = version_set || wants_version ots.
 Proof. exact GenSwitchEquivLemmas.gen_version_listener. Qed.
 Print Assumptions version_guard_matches_source.
+Theorem option_tokens_match_source : forall toks t,
+  GenSwitches.option_tokens str_eqb toks = option_tokens toks /\
+  GenSwitches.has_option_token str_eqb toks t = has_token t (option_tokens toks).
+Proof. intros toks t. split; [apply GenSwitchEquivLemmas.gen_option_tokens|apply GenSwitchEquivLemmas.gen_has_option_token]. Qed.
+Print Assumptions option_tokens_match_source.
